@@ -67,3 +67,98 @@ def build(reg):
         raises={'OSError': []},
         loops={0: LoopSpec(unroll=3)}))
     return T
+
+
+def bounded_checks(reg, tier, seed):
+    """Bounded stand-in / counterexample finder: the REAL ListenerPool.setup and the REAL port
+    write-back slice of Proxy.setup (statements extracted from the source on every run), with
+    fake listener classes that bind nothing.  Exhaustive over the option grid below."""
+    import ast
+    import argparse
+    import itertools
+    import os
+    import tempfile
+    import types
+    from unittest import mock
+    import proxy.proxy as pp
+    import proxy.core.listener.pool as lp
+    from pyvc.engine import REPO
+    src = open(os.path.join(REPO, 'proxy/proxy.py')).read()
+    tree = ast.parse(src)
+    cls = [n for n in tree.body if isinstance(n, ast.ClassDef) and n.name == 'Proxy'][0]
+    fn = [n for n in cls.body if isinstance(n, ast.FunctionDef) and n.name == 'setup'][0]
+    segs = [ast.get_source_segment(src, s) for s in fn.body]
+    i0 = next(i for i, t in enumerate(segs) if 'self.listeners = ListenerPool' in t)
+    i1 = next(i for i, t in enumerate(segs) if 'self._write_port_file()' in t)
+    mod = ast.Module(body=[ast.FunctionDef(name='slice_', args=ast.arguments(posonlyargs=[], args=[ast.arg('self')],
+                                                                             kwonlyargs=[], kw_defaults=[], defaults=[]),
+                                           body=fn.body[i0:i1 + 1], decorator_list=[], lineno=1, col_offset=0)],
+                     type_ignores=[])
+    ast.fix_missing_locations(mod)
+    ns = dict(pp.__dict__)
+    exec(compile(mod, 'proxy.py:Proxy.setup[slice]', 'exec'), ns)
+    counter = itertools.count(40000)
+
+    class FakeTcp(object):
+        def __init__(self, flags, hostname, port):
+            self.flags, self.hostname, self.port = flags, hostname, port
+            self._port = None
+
+        def setup(self):
+            self._port = self.port if self.port != 0 else next(counter)
+
+        def shutdown(self):
+            pass
+
+    class FakeUnix(object):
+        def __init__(self, flags):
+            self.flags = flags
+
+        def setup(self):
+            pass
+
+        def shutdown(self):
+            pass
+    bad = []
+    n = 0
+    tmp = tempfile.mkdtemp(prefix='pyvc-c19-')
+    try:
+        for unix in (None, os.path.join(tmp, 'sock')):
+            for port in (0, 8899):
+                for ports in ([], [0], [9001], [0, 0], [9001, 0, 9002], [0, 9003, 0]):
+                    pf = os.path.join(tmp, 'ports')
+                    flags = argparse.Namespace(unix_socket_path=unix, port=port, ports=list(ports), hostname='127.0.0.1',
+                                               hostnames=[], port_file=pf)
+                    self = pp.Proxy.__new__(pp.Proxy)
+                    self.flags = flags
+                    with mock.patch.object(lp, 'TcpSocketListener', FakeTcp), mock.patch.object(lp, 'UnixSocketListener', FakeUnix):
+                        try:
+                            ns['slice_'](self)
+                        except Exception as e:      # noqa
+                            bad.append({'unix': bool(unix), 'port': port, 'ports': ports, 'what': 'raised %r' % (e,)})
+                            continue
+                    n += 1
+                    tcp = [l for l in self.listeners.pool if isinstance(l, FakeTcp)]
+                    bound = [l._port for l in tcp]
+                    primary = [l._port for l in tcp if l.port == port and l is tcp[-1]] if not unix else []
+                    lines = [int(x) for x in open(pf).read().split()]
+                    case = {'unix': bool(unix), 'port': port, 'ports': ports, 'bound': bound, 'flags.port': flags.port,
+                            'flags.ports': list(flags.ports), 'port_file': lines}
+                    if not unix:
+                        if flags.port != tcp[-1]._port:
+                            bad.append(dict(case, what='flags.port is not the port of the listener created for --port'))
+                        elif set([flags.port] + list(flags.ports)) != set(bound) or len(flags.ports) != len(bound) - 1:
+                            bad.append(dict(case, what='flags.port + flags.ports do not name exactly the bound TCP ports'))
+                        elif lines[:1] != [flags.port] or sorted(lines) != sorted(bound):
+                            bad.append(dict(case, what='port file does not list exactly the bound ports, primary first'))
+                    else:
+                        if set(flags.ports) != set(bound) or len(flags.ports) != len(bound):
+                            bad.append(dict(case, what='flags.ports do not name exactly the bound TCP ports (unix socket + --ports)'))
+                        elif sorted(lines) != sorted(bound):
+                            bad.append(dict(case, what='port file does not list exactly the bound ports'))
+    finally:
+        import shutil
+        shutil.rmtree(tmp, ignore_errors=True)
+    return [{'name': 'native option-grid sweep of ListenerPool.setup + Proxy.setup port write-back slice', 'bounded': True,
+             'bound': 'unix socket on/off x --port {0, fixed} x 6 --ports lists (0..3 entries, fixed and OS-assigned)',
+             'cases': n, 'violations': bad[:3]}]
